@@ -73,6 +73,7 @@ type FnCtx struct {
 	gens       []genInfo
 	genSyms    map[string]bool
 	kindCnt    map[string]int
+	skipCnt    int
 	abstr      []string          // abstractions applied (unsupported constructs replaced by unconstrained values)
 	errs       []string          // hard errors (contract could not be applied)
 	callees    map[string]string // callee -> how handled
